@@ -36,6 +36,7 @@ type GenCtx struct {
 	ChainID  *big.Int
 	Galaxias bool                                    // rules in force at the block's height (intrinsic gas 21 000 vs 29 000, signer)
 	Extra    []Target                                // optional prepared calls
+	ExtraPct int                                     // share of transactions (percent) drawn from Extra when it is non-empty (default 8)
 	BigLate  bool                                    // allow late rejections (intrinsic / transfer) with a gas limit close to what is left in the block: the D11 shape
 	Collide  func(from common.Address, nonce uint64) // optional: called when a creation is drawn with aim "collision" so that the caller can pre-place a contract at the derived address
 }
@@ -111,6 +112,9 @@ func (c *GenCtx) Draw(t *rapid.T, v View, poolLeft uint64) TxDraw {
 	var data []byte
 	create := false
 	shapeW := rapid.IntRange(0, 99).Draw(t, "shape")
+	if len(c.Extra) > 0 && c.ExtraPct > 8 && rapid.IntRange(0, 99).Draw(t, "extrapct") < c.ExtraPct {
+		shapeW = 99
+	}
 	pad := func() []byte {
 		n := rapid.SampledFrom([]int{0, 0, 0, 1, 4, 32, 80, 250}).Draw(t, "padlen")
 		if n == 0 {
